@@ -465,6 +465,47 @@ else:
 """
 
 
+MIXED_REPRO = PRELUDE + """
+e = E(@sym@)()
+f = np.array(@f@)
+one = [complex(e.get_impedances(np.array([x]))[0]) for x in f]
+many = [complex(z) for z in e.get_impedances(f)]
+assert all(abs(a - b) <= 1e-12 * max(1.0, abs(b)) for a, b in zip(many, one)), (many, one)
+"""
+
+
+def run_mixed(args):
+    """an array holding 0 Hz and infinite frequency among finite ones, in several orders: every entry is the value of ITS frequency
+    (the limits are evaluated separately and written back by index)"""
+    sym, = args
+    import numpy as np
+    import pyimpspec  # noqa
+    from pyimpspec.circuit.registry import get_elements
+    cls = get_elements(private=True)[sym]
+    e = cls()
+    cases, fails = [], []
+    try:
+        for x in (0.0, INF):
+            if not finite(complex(e.get_impedances(np.array([x]))[0])):
+                raise ValueError
+    except Exception:  # noqa  - a limit is not reported for this class: nothing to mix
+        return "mixed", "a limit is not reported", [(("mixed", sym), False)], [], [], 0.0, {}
+    for f in ([0.0, 1.0, 10.0, INF], [0.0, INF, 1.0, 10.0], [10.0, INF, 1.0, 0.0], [INF, 1.0, 0.0], [0.0, 0.0, INF, 2.0, INF]):
+        key = ("mixed", sym, tuple(f))
+        src = fill(MIXED_REPRO, sym=sym, f=repr(f).replace("inf", "float('inf')"))
+        try:
+            one = [complex(e.get_impedances(np.array([x]))[0]) for x in f]
+            many = [complex(z) for z in e.get_impedances(np.array(f))]
+        except Exception as ex:  # noqa
+            cases.append((key, True))
+            fails.append((f"{sym}:mixed-limits:raises {type(ex).__name__}", "_calculate_impedances", f"{sym}().get_impedances({f}) raises {type(ex).__name__}: {str(ex)[:80]} although every single frequency evaluates", src))
+            continue
+        cases.append((key, True))
+        if not all(abs(a - b) <= 1e-12 * max(1.0, abs(b)) for a, b in zip(many, one)):
+            fails.append((f"{sym}:mixed-limits:entries-differ-from-single-frequency-values", "_calculate_impedances", f"{sym}().get_impedances({f}) = {many}, one frequency at a time: {one}", src))
+    return "mixed", "compared", cases, fails, [], 0.0, {}
+
+
 def run_limit(args):
     sym, which = args
     import numpy as np
@@ -506,7 +547,7 @@ def run_limit(args):
 
 def dispatch(task):
     part, args = task
-    return {"element": run_element, "tlm": run_tlm, "circuit": run_circuit, "limit": run_limit}[part](args)
+    return {"element": run_element, "tlm": run_tlm, "circuit": run_circuit, "limit": run_limit, "mixed": run_mixed}[part](args)
 
 
 def main(a):
@@ -534,7 +575,8 @@ def main(a):
     for sym in classes:
         for which in ("0", "inf"):
             tasks.append(("limit", (sym, which)))
-    order = {"limit": 0, "circuit": 1, "element": 2, "tlm": 3}      # slow symbolic tasks first
+        tasks.append(("mixed", (sym,)))
+    order = {"limit": 0, "mixed": 0, "circuit": 1, "element": 2, "tlm": 3}      # slow symbolic tasks first
     tasks.sort(key=lambda t: order[t[0]])
     n_el = sum(1 for c in classes.values() if not issubclass(c, Container))
     res = Result(
